@@ -1106,7 +1106,8 @@ void output_text(FILE *pfile)
          }
          else              // standard output
          {
-            add_text(pc->GetStr(), false, pc->Is(CT_STRING));
+            add_text(pc->GetStr(), false, (  pc->Is(CT_STRING)
+                                          || pc->Is(CT_STRING_MULTI)));
          }
 
          if (pc->Is(CT_PP_DEFINE))  // Issue #876
